@@ -5,6 +5,16 @@ triples of spec/BitsNum.tla (sign, integer bits little endian, fraction bits
 most significant first) through int / float.as_integer_ratio() - no decimal
 rounding anywhere.  Buffers are dumped as hex of their element bytes in
 logical (C) order.
+
+Byte order (ORDERS): the input type may reach the transformer as a dtype
+object in NON-NATIVE byte order (what arr.dtype of data read from a
+big-endian TIFF / NIfTI file is): "swapped" builds the transformer from the
+byte-swapped dtype AND passes a byte-swapped chunk, "transformer_swapped" /
+"chunk_swapped" swap only one of the two (equivalent dtypes, accepted by the
+transformer).  The values held by the array are the same in every order; TLC
+sees the type by its byte-order-free name.  The result is dumped in native
+byte order and its dtype recorded by name (the property does not speak about
+the byte order of the result).
 """
 import math
 import warnings
@@ -19,6 +29,12 @@ IN_DTYPES = ["int8", "int16", "int32", "int64", "uint8", "uint16", "uint32", "ui
 OUT_DTYPES = ["uint8", "uint16", "uint32", "uint64", "float32"]
 MODES = ("preserve", "inplace")
 LAYOUTS = ("contig", "strided", "fortran", "readonly")
+ORDERS = ("native", "swapped", "transformer_swapped", "chunk_swapped")
+
+
+def orders_for(in_dtype):
+    """one-byte types have no byte order"""
+    return ORDERS if np.dtype(in_dtype).itemsize > 1 else ("native",)
 
 
 # ---------------------------------------------------------------- encoding --
@@ -139,7 +155,12 @@ def dump(a):
     return a.tobytes(order="C").hex()
 
 
-def run_group(in_dtype, out_dtype, values):
+def dump_native(a):
+    """element bytes in logical order, native byte order (lossless re-encoding)"""
+    return np.asarray(a, dtype=a.dtype.newbyteorder("=")).tobytes(order="C").hex()
+
+
+def run_group(in_dtype, out_dtype, values, order="native"):
     """Call the real transformer on the same values in every mode x layout.
 
     Returns {"in", "out", "values" (Fractions), "shape", "runs": [...]};
@@ -149,8 +170,13 @@ def run_group(in_dtype, out_dtype, values):
     values = list(values)
     if len(values) % 2:
         values.append(Fraction(0))
-    data = make_array(values, in_dtype).reshape(2, -1)
-    if [exact(x) for x in data.ravel().tolist()] != values:
+    native = np.dtype(in_dtype)
+    swapped = native.newbyteorder("S")
+    chunk_dt = swapped if order in ("swapped", "chunk_swapped") else native
+    tr_dt = swapped if order in ("swapped", "transformer_swapped") else native
+    data = make_array(values, in_dtype).reshape(2, -1).astype(chunk_dt)
+    if data.dtype != chunk_dt or data.dtype.byteorder != chunk_dt.byteorder \
+            or [exact(x) for x in data.ravel().tolist()] != values:
         raise AssertionError("input array does not hold the requested values exactly")
     runs = []
     for mode in MODES:
@@ -161,10 +187,10 @@ def run_group(in_dtype, out_dtype, values):
             try:
                 with warnings.catch_warnings():
                     warnings.simplefilter("ignore")
-                    tr = get_chunk_dtype_transformer(in_dtype, out_dtype, warn=False)
+                    tr = get_chunk_dtype_transformer(tr_dt, out_dtype, warn=False)
                     res = tr(arr, preserve_input=(mode == "preserve"))
-                run["res"] = dump(res)
-                run["rdtype"] = str(res.dtype)
+                run["res"] = dump_native(res)
+                run["rdtype"] = res.dtype.name
                 run["rshape"] = list(res.shape)
                 run["elems"] = [res[idx] for idx in np.ndindex(*res.shape)] \
                     if res.shape == data.shape else None
@@ -173,7 +199,7 @@ def run_group(in_dtype, out_dtype, values):
                 run["msg"] = str(e)[:200]
             run["after"] = dump(arr)
             runs.append(run)
-    return {"in": in_dtype, "out": out_dtype, "values": values,
+    return {"in": in_dtype, "out": out_dtype, "values": values, "order": order,
             "shape": list(data.shape), "runs": runs, "data": data}
 
 
